@@ -1,6 +1,6 @@
 // Verification harness for C17 (API conversions), compiled into rustybgpd's unit-test binary only with
-// `--cfg osrg_rustybgp_verif` (+ `--cfg verif_all` or `--cfg verif_c17`).  Child of the crate root via
-// main_hook.rs, so `crate::convert` (crate-private) is reachable.
+// `--cfg osrg_rustybgp_verif` (+ `--cfg verif_all` or `--cfg verif_c17`).  Child of `crate::event::verif_event`
+// (event.rs hook), so `GrpcService` (pub(super) in `event`) and `crate::convert` are reachable.
 //
 // Reads case lines (lean/Rbgp/Api/Codec.lean syntax) from $VERIF_IN, runs the REAL code
 // (`PeerCodec::parse_message`, `convert::attr_to_api/attr_from_api/nlri_to_api/net_from_api`,
@@ -458,7 +458,63 @@ fn use_policy(attrs: &[Attribute]) -> Out<Vec<u8>> {
                 ..Default::default()
             },
         };
-        let pol = table::Policy { name: Arc::from("p"), statements: vec![Arc::new(st)] };
+        // statements that read / rewrite the community attributes and the scalar ones; they never match
+        // on AS_PATH, so the AS_PATH returned below is still the one produced by `st`
+        let re = |s: &str| regex::Regex::new(s).unwrap();
+        let st_comm = table::Statement {
+            name: Arc::from("c"),
+            conditions: vec![
+                table::Condition::Community(
+                    "cs".into(),
+                    table::MatchOption::Invert,
+                    Arc::new(table::CommunitySet { sets: vec![re("^65535:65281$")] }),
+                ),
+                table::Condition::ExtCommunity(
+                    "es".into(),
+                    table::MatchOption::Invert,
+                    Arc::new(table::ExtCommunitySet { sets: vec![re("^rt:1:1$")] }),
+                ),
+                table::Condition::LargeCommunity(
+                    "ls".into(),
+                    table::MatchOption::Invert,
+                    Arc::new(table::LargeCommunitySet { sets: vec![re("^1:2:3$")] }),
+                ),
+                table::Condition::CommunityCount(table::Comparison::Ge, 0),
+            ],
+            disposition: None,
+            actions: table::Actions {
+                community: Some(table::CommunityAction {
+                    action_type: table::CommunityActionType::Add,
+                    communities: vec![0xffff0001],
+                }),
+                ext_community: Some(table::ExtCommunityAction {
+                    action_type: table::CommunityActionType::Remove,
+                    communities: vec![[0, 2, 0, 1, 0, 0, 0, 1]],
+                }),
+                large_community: Some(table::LargeCommunityAction {
+                    action_type: table::CommunityActionType::Add,
+                    communities: vec![(1, 2, 3)],
+                }),
+                med: Some(table::MedAction { action_type: table::MedActionType::Mod, value: 10 }),
+                local_pref: Some(table::LocalPrefAction { value: 200 }),
+                origin: Some(table::OriginAction { origin: 1 }),
+                ..Default::default()
+            },
+        };
+        let st_scalar = table::Statement {
+            name: Arc::from("v"),
+            conditions: vec![
+                table::Condition::LocalPrefEq(100),
+                table::Condition::MedEq(0),
+                table::Condition::Origin(0),
+            ],
+            disposition: None,
+            actions: Default::default(),
+        };
+        let pol = table::Policy {
+            name: Arc::from("p"),
+            statements: vec![Arc::new(st_scalar), Arc::new(st_comm), Arc::new(st)],
+        };
         let asg = table::PolicyAssignment {
             name: Arc::from("a"),
             disposition: table::Disposition::Accept,
@@ -749,11 +805,36 @@ fn decode_nlris(family: Family, bytes: &[u8]) -> Out<Vec<packet::PathNlri>> {
     })
 }
 
+/// `encode_to` of a Reach carrying the prefix (NLRI field for IPv4 unicast, MP_REACH_NLRI otherwise)
+fn use_nlri_msg(n: &Nlri, family: Family) -> Out<()> {
+    guard_res(|| {
+        let mut codec = PeerCodec::new();
+        codec.two_byte_as = false;
+        codec.set_family(Family::IPV4, FamilyState { addpath_rx: false, addpath_tx: false });
+        codec.set_family(family, FamilyState { addpath_rx: false, addpath_tx: false });
+        let nexthop = if family.afi() == 2 {
+            bgp::Nexthop::V6(Ipv6Addr::from_str("2001:db8::1").unwrap())
+        } else {
+            bgp::Nexthop::V4(Ipv4Addr::new(192, 0, 2, 1))
+        };
+        let msg = bgp::Message::Update(bgp::Update::Reach {
+            family,
+            entries: vec![packet::PathNlri { path_id: 0, nlri: n.clone() }],
+            nexthop: Some(nexthop),
+            attr: Arc::new(vec![origin_igp(), base_as_path()]),
+        });
+        let mut dst = bytes::BytesMut::with_capacity(8192);
+        codec.encode_to(&msg, &mut dst).map(|_| ())
+    })
+}
+
 fn nlri_obs(n: &Nlri, family: Family) -> Option<Term> {
     let api = convert::nlri_to_api(n);
     let a2 = api.clone();
     let back = guard_res(move || convert::net_from_api(a2, family));
     let enc = guard(|| n.encode_to_bytes());
+    let msg = use_nlri_msg(n, family);
+    let ins = use_cmp(&[origin_igp(), base_as_path()], family, n);
     let mut ok = true;
     let bt = out_t(&back, |x| match nlri_t(x) {
         Some(t) => t,
@@ -765,7 +846,10 @@ fn nlri_obs(n: &Nlri, family: Family) -> Option<Term> {
     if !ok {
         return None;
     }
-    Some(Term::tag("n", vec![nlri_t(n)?, api_nlri_t(&api), bt, out_t(&enc, |b| Term::bytes(b))]))
+    Some(Term::tag(
+        "n",
+        vec![nlri_t(n)?, api_nlri_t(&api), bt, out_t(&enc, |b| Term::bytes(b)), unit_out_t(&msg), unit_out_t(&ins)],
+    ))
 }
 
 // ------------------------------------------------------------------ exploration (kinds outside the model)
@@ -773,18 +857,69 @@ fn x_fail(why: &str) -> String {
     format!("(x fail {})", why)
 }
 
-/// how a re-imported value differs from the stored one (distinct oracle clauses per defect kind)
-fn diff_class(orig: &[u8], back: &[u8]) -> &'static str {
+/// how a re-imported value differs from the stored one (fallback when the value has no TLV framing)
+fn diff_class(orig: &[u8], back: &[u8]) -> String {
     if back.len() > orig.len() {
-        "roundtrip-longer"
+        "roundtrip-longer".into()
     } else if back.len() < orig.len() {
-        "roundtrip-shorter"
+        "roundtrip-shorter".into()
     } else {
         let (mut a, mut b) = (orig.to_vec(), back.to_vec());
         a.sort();
         b.sort();
-        if a == b { "roundtrip-reordered" } else { "roundtrip-changed" }
+        if a == b { "roundtrip-reordered".into() } else { "roundtrip-changed".into() }
     }
+}
+
+/// top-level TLVs of an attribute value: (type, whole TLV); `type_len` = width of the type field, the
+/// length field is two octets
+fn split_tlvs(b: &[u8], type_len: usize) -> Option<Vec<(u32, Vec<u8>)>> {
+    let mut out = Vec::new();
+    let mut pos = 0;
+    while pos < b.len() {
+        if pos + type_len + 2 > b.len() {
+            return None;
+        }
+        let ty = if type_len == 1 { b[pos] as u32 } else { u16::from_be_bytes([b[pos], b[pos + 1]]) as u32 };
+        let l = u16::from_be_bytes([b[pos + type_len], b[pos + type_len + 1]]) as usize;
+        let end = pos + type_len + 2 + l;
+        if end > b.len() {
+            return None;
+        }
+        out.push((ty, b[pos..end].to_vec()));
+        pos = end;
+    }
+    Some(out)
+}
+
+/// One oracle clause per defect kind: names the first TLV type that is dropped / duplicated / altered /
+/// invented by the round trip, or says that only the order changed.
+fn diff_tlvs(code: u8, orig: &[u8], back: &[u8]) -> String {
+    let type_len = if code == 40 { 1 } else { 2 };
+    let (Some(a), Some(b)) = (split_tlvs(orig, type_len), split_tlvs(back, type_len)) else {
+        return diff_class(orig, back);
+    };
+    for (ty, tlv) in &a {
+        let na = a.iter().filter(|x| x.1 == *tlv).count();
+        let nb = b.iter().filter(|x| x.1 == *tlv).count();
+        if nb == na {
+            continue;
+        }
+        let same_type = b.iter().filter(|x| x.0 == *ty).count();
+        return if nb > na {
+            format!("roundtrip-tlv{}-duplicated", ty)
+        } else if same_type == 0 {
+            format!("roundtrip-tlv{}-dropped", ty)
+        } else {
+            format!("roundtrip-tlv{}-changed", ty)
+        };
+    }
+    for (ty, tlv) in &b {
+        if !a.iter().any(|x| x.1 == *tlv) {
+            return format!("roundtrip-tlv{}-added", ty);
+        }
+    }
+    "roundtrip-reordered".into()
 }
 
 fn dbg() -> bool {
@@ -806,6 +941,9 @@ fn explore_attr(code: u8, flags: u8, val: &[u8], exact: bool) -> String {
     if dbg() {
         eprintln!("explore attr {:?}\n  api {:?}", a, api);
     }
+    if use_t(&a).1 {
+        return x_fail("value-crashes-consumer");
+    }
     let b = match guard_res(move || convert::attr_from_api(api)) {
         Out::Ok(b) => b,
         // a mutated value may be one the (lax) wire decoder keeps but the API boundary refuses: not unsafe
@@ -815,13 +953,17 @@ fn explore_attr(code: u8, flags: u8, val: &[u8], exact: bool) -> String {
     if dbg() && b != a {
         eprintln!("  back {:?}", b);
     }
+    // the consumers run on the stored and on the re-imported value whatever the round trip gave
+    if use_t(&b).1 {
+        return x_fail("reimported-value-crashes-consumer");
+    }
     if exact {
         if b != a {
             if b.code() == a.code() && b.binary() == a.binary() && b.value() == a.value() {
                 return x_fail("roundtrip-flags-differ");
             }
             return match (a.binary(), b.binary()) {
-                (Some(x), Some(y)) => x_fail(diff_class(x, y)),
+                (Some(x), Some(y)) => x_fail(&diff_tlvs(code, x, y)),
                 _ => x_fail("roundtrip-changed"),
             };
         }
@@ -839,12 +981,6 @@ fn explore_attr(code: u8, flags: u8, val: &[u8], exact: bool) -> String {
             Out::Err => return x_fail("reimported-value-rejected"),
             Out::Panic => return x_fail("from-api-panics"),
         }
-        if use_t(&b).1 {
-            return x_fail("reimported-value-crashes-consumer");
-        }
-    }
-    if use_t(&a).1 {
-        return x_fail("value-crashes-consumer");
     }
     "(x ok)".into()
 }
@@ -886,9 +1022,27 @@ fn explore_nlri(afi: u16, safi: u8, bytes: &[u8], exact: bool) -> String {
             Out::Ok(x) => x,
             _ => return x_fail("reimported-value-crashes-encode"),
         };
+        let attrs = vec![origin_igp(), base_as_path()];
+        if matches!(use_cmp(&attrs, family, &n), Out::Panic) {
+            return x_fail("value-crashes-table-insert");
+        }
+        if matches!(use_cmp(&attrs, family, &b), Out::Panic) {
+            return x_fail("reimported-value-crashes-table-insert");
+        }
+        if matches!(use_nlri_msg(&n, family), Out::Panic) {
+            return x_fail("value-crashes-update-encode");
+        }
+        if matches!(use_nlri_msg(&b, family), Out::Panic) {
+            return x_fail("reimported-value-crashes-update-encode");
+        }
         if exact {
             if b != n {
-                return x_fail(diff_class(&enc_n, &enc_b));
+                // BGP-LS: name the NLRI type (first two octets) so that each kind is its own finding
+                let class = diff_class(&enc_n, &enc_b);
+                if afi == 16388 && enc_n.len() >= 2 {
+                    return x_fail(&format!("{}-nlri-type{}", class, u16::from_be_bytes([enc_n[0], enc_n[1]])));
+                }
+                return x_fail(&class);
             }
         } else {
             let api2 = match guard(|| convert::nlri_to_api(&b)) {
@@ -905,15 +1059,283 @@ fn explore_nlri(afi: u16, safi: u8, bytes: &[u8], exact: bool) -> String {
                 Out::Panic => return x_fail("from-api-panics"),
             }
         }
-        let attrs = vec![origin_igp(), base_as_path()];
-        if matches!(use_cmp(&attrs, family, &n), Out::Panic) {
-            return x_fail("value-crashes-table-insert");
-        }
-        if matches!(use_cmp(&attrs, family, &b), Out::Panic) {
-            return x_fail("reimported-value-crashes-table-insert");
-        }
     }
     "(x ok)".into()
+}
+
+// ------------------------------------------------------------------ API messages of kinds outside the model
+const MACS: [&str; 6] = ["00:11:22:33:44:55", "", "00:11:22:33:44", "00:11:22:33:44:5g", "0:1:2:3:4:5", "001122334455"];
+
+fn rd_of(k: u32) -> Option<api::RouteDistinguisher> {
+    use api::route_distinguisher::Rd as R;
+    match k % 4 {
+        0 => None,
+        1 => Some(api::RouteDistinguisher { rd: None }),
+        2 => Some(api::RouteDistinguisher {
+            rd: Some(R::TwoOctetAsn(api::RouteDistinguisherTwoOctetAsn { admin: 65001, assigned: 7 })),
+        }),
+        _ => Some(api::RouteDistinguisher {
+            rd: Some(R::TwoOctetAsn(api::RouteDistinguisherTwoOctetAsn { admin: 70000, assigned: 7 })),
+        }),
+    }
+}
+
+/// an accepted attribute of an unmodelled kind: must be displayable, re-importable to the same value, and safe
+fn accepted_attr_ok(a: &Attribute, sent: Option<&api::Attribute>) -> String {
+    if use_t(a).1 {
+        return x_fail("accepted-value-crashes-consumer");
+    }
+    let api = match guard(|| convert::attr_to_api(a)) {
+        Out::Ok(x) => x,
+        _ => return x_fail("to-api-panics-on-accepted"),
+    };
+    // "listed with the same content as added": the message shown for the accepted value is the one sent
+    if let Some(x) = sent
+        && &api != x
+    {
+        return x_fail("listed-differs-from-added");
+    }
+    match guard_res(move || convert::attr_from_api(api)) {
+        Out::Ok(b) => {
+            if &b != a {
+                return x_fail("accepted-value-not-stable");
+            }
+        }
+        Out::Err => return x_fail("accepted-value-not-reimportable"),
+        Out::Panic => return x_fail("from-api-panics"),
+    }
+    "(x ok)".into()
+}
+
+fn accepted_nlri_ok(n: &Nlri, family: Family) -> String {
+    if matches!(guard(|| n.encode_to_bytes()), Out::Panic) {
+        return x_fail("accepted-value-crashes-encode");
+    }
+    if matches!(use_nlri_msg(n, family), Out::Panic) {
+        return x_fail("accepted-value-crashes-update-encode");
+    }
+    if matches!(use_cmp(&[origin_igp(), base_as_path()], family, n), Out::Panic) {
+        return x_fail("accepted-value-crashes-table-insert");
+    }
+    let api = match guard(|| convert::nlri_to_api(n)) {
+        Out::Ok(x) => x,
+        _ => return x_fail("to-api-panics-on-accepted"),
+    };
+    match guard_res(move || convert::net_from_api(api, family)) {
+        Out::Ok(b) => {
+            if &b != n {
+                return x_fail("accepted-value-not-stable");
+            }
+        }
+        Out::Err => return x_fail("accepted-value-not-reimportable"),
+        Out::Panic => return x_fail("from-api-panics"),
+    }
+    "(x ok)".into()
+}
+
+/// `(x api-<kind> N1 N2 ... )`: prost messages of the unmodelled kinds built from a few numbers; the claim
+/// checked is "conversion from API input never panics" (+ what is accepted is safe and stable)
+fn explore_api(kind: &str, a: &[u64], strs: &[String], bytes: &[u8]) -> String {
+    use api::attribute::Attr as A;
+    use api::nlri::Nlri as N;
+    let g = |i: usize| a.get(i).copied().unwrap_or(0);
+    let st = |i: usize| strs.get(i).cloned().unwrap_or_default();
+    let attr_case = |x: A| -> String {
+        let sent = api::Attribute { attr: Some(x) };
+        let s2 = sent.clone();
+        // MP_REACH is a carrier for the next hop (taken out again by local_path), not a stored attribute
+        let listed = if matches!(sent.attr, Some(A::MpReach(_))) { None } else { Some(&sent) };
+        match guard_res(move || convert::attr_from_api(s2)) {
+            Out::Ok(v) => accepted_attr_ok(&v, listed),
+            Out::Err => "(x ok)".into(),
+            Out::Panic => x_fail("from-api-panics"),
+        }
+    };
+    let nlri_case = |x: N, family: Family| -> String {
+        match guard_res(move || convert::net_from_api(api::Nlri { nlri: Some(x) }, family)) {
+            Out::Ok(v) => accepted_nlri_ok(&v, family),
+            Out::Err => "(x ok)".into(),
+            Out::Panic => x_fail("from-api-panics"),
+        }
+    };
+    let esi = |k: u64| -> Option<api::EthernetSegmentIdentifier> {
+        match k % 5 {
+            0 => None,
+            1 => Some(api::EthernetSegmentIdentifier { r#type: 0, value: vec![0; 9] }),
+            2 => Some(api::EthernetSegmentIdentifier { r#type: 300, value: vec![1; 9] }),
+            3 => Some(api::EthernetSegmentIdentifier { r#type: 1, value: vec![1; 8] }),
+            _ => Some(api::EthernetSegmentIdentifier { r#type: 1, value: vec![1; 10] }),
+        }
+    };
+    match kind {
+        "api-mpreach" => attr_case(A::MpReach(api::MpReachNlriAttribute {
+            family: if g(0) == 0 && g(1) == 0 { None } else { Some(api::Family { afi: g(0) as i32, safi: g(1) as i32 }) },
+            next_hops: strs.to_vec(),
+            nlris: vec![],
+        })),
+        "api-tunnel-encap" => attr_case(A::TunnelEncap(api::TunnelEncapAttribute {
+            tlvs: (0..g(0) % 3).map(|i| api::TunnelEncapTlv { r#type: (g(1) as u32).wrapping_add(i as u32 * 65536), tlvs: vec![] }).collect(),
+        })),
+        "api-prefix-sid" => attr_case(A::PrefixSid(api::PrefixSid {
+            tlvs: (0..g(0) % 3).map(|_| api::prefix_sid::Tlv { tlv: None }).collect(),
+        })),
+        "api-ls" => attr_case(A::Ls(api::LsAttribute::default())),
+        "api-evpn-macadv" => nlri_case(
+            N::EvpnMacadv(api::EvpnmacipAdvertisementRoute {
+                rd: rd_of(g(0) as u32),
+                esi: esi(g(1)),
+                ethernet_tag: g(2) as u32,
+                mac_address: MACS[g(3) as usize % MACS.len()].to_string(),
+                ip_address: st(0),
+                labels: (0..g(4) % 4).map(|i| (g(5) as u32).wrapping_add(i as u32)).collect(),
+            }),
+            Family::L2VPN_EVPN,
+        ),
+        "api-evpn-ead" => nlri_case(
+            N::EvpnEthernetAd(api::EvpnEthernetAutoDiscoveryRoute {
+                rd: rd_of(g(0) as u32),
+                esi: esi(g(1)),
+                ethernet_tag: g(2) as u32,
+                label: g(3) as u32,
+            }),
+            Family::L2VPN_EVPN,
+        ),
+        "api-evpn-prefix" => nlri_case(
+            N::EvpnIpPrefix(api::EvpnipPrefixRoute {
+                rd: rd_of(g(0) as u32),
+                esi: esi(g(1)),
+                ethernet_tag: g(2) as u32,
+                ip_prefix: st(0),
+                ip_prefix_len: g(3) as u32,
+                gw_address: st(1),
+                label: g(4) as u32,
+            }),
+            Family::L2VPN_EVPN,
+        ),
+        "api-srpolicy" => nlri_case(
+            N::SrPolicy(api::SrPolicyNlri {
+                length: g(0) as u32,
+                distinguisher: g(1) as u32,
+                color: g(2) as u32,
+                endpoint: bytes.to_vec(),
+            }),
+            if bytes.len() == 16 { Family::IPV6_SRPOLICY } else { Family::IPV4_SRPOLICY },
+        ),
+        "api-rtc" => nlri_case(
+            N::RouteTargetMembership(api::RouteTargetMembershipNlri {
+                asn: g(0) as u32,
+                rt: match g(1) % 3 {
+                    0 => None,
+                    1 => Some(api::RouteTarget { rt: None }),
+                    _ => Some(api::RouteTarget {
+                        rt: Some(api::route_target::Rt::TwoOctetAsSpecific(api::TwoOctetAsSpecificExtended {
+                            is_transitive: true,
+                            sub_type: g(2) as u32,
+                            asn: g(3) as u32,
+                            local_admin: 7,
+                        })),
+                    }),
+                },
+            }),
+            Family::RTC,
+        ),
+        "api-flowspec" => nlri_case(
+            N::FlowSpec(api::FlowSpecNlri { rules: vec![] }),
+            Family::new(g(0) as u16, g(1) as u8),
+        ),
+        // a modelled message kind under a family it does not belong to
+        "api-prefix-family" => nlri_case(
+            N::Prefix(api::IpAddressPrefix { prefix: st(0), prefix_len: g(2) as u32 }),
+            Family::new(g(0) as u16, g(1) as u8),
+        ),
+        _ => BAD_CASE.into(),
+    }
+}
+
+// ------------------------------------------------------------------ AddPath / ListPath through the real GrpcService
+use super::super::{Global, GlobalHandle, GrpcService, TableManager};
+use crate::api::go_bgp_service_server::GoBgpService;
+
+fn family_of_api_nlri(t: &Term) -> Option<(i32, i32)> {
+    let v6 = |s: &Term| s.head() == Some("ip6");
+    match t.head()? {
+        "prefix" => Some(if v6(t.as_list()?.get(1)?) { (2, 1) } else { (1, 1) }),
+        "labeled" => Some(if v6(t.as_list()?.get(3)?) { (2, 4) } else { (1, 4) }),
+        "vpn" => Some(if v6(t.as_list()?.get(4)?) { (2, 128) } else { (1, 128) }),
+        _ => Some((1, 1)),
+    }
+}
+
+/// One path through `GoBgpService::add_path` (=> `local_path`, `TableManager::insert_route`) and back through
+/// `GoBgpService::list_path` (=> `collect_paths`, `destination_to_api`) on a fresh daemon state.
+fn run_grpc(nlri_t: &Term, attrs_t: &[Term]) -> Option<String> {
+    let nlri = api_nlri_from_term(nlri_t)?;
+    let pattrs: Option<Vec<api::Attribute>> = attrs_t.iter().map(api_attr_from_term).collect();
+    let pattrs = pattrs?;
+    let (afi, safi) = family_of_api_nlri(nlri_t)?;
+    let rt = tokio::runtime::Builder::new_current_thread().enable_all().build().ok()?;
+    let out = guard(|| {
+        rt.block_on(async move {
+            let (active_tx, _active_rx) = tokio::sync::mpsc::unbounded_channel();
+            let (kernel_tx, _kernel_rx) = tokio::sync::mpsc::unbounded_channel();
+            let (bfd_tx, _bfd_rx) = tokio::sync::mpsc::unbounded_channel();
+            let mut g = Global::new(kernel_tx, bfd_tx);
+            g.asn = 65000;
+            g.router_id = Ipv4Addr::new(192, 0, 2, 254);
+            let global: GlobalHandle = Arc::new(tokio::sync::RwLock::new(g));
+            let tables = Arc::new(TableManager::new(1));
+            let svc = GrpcService::new(Arc::new(tokio::sync::Notify::new()), active_tx, global, tables);
+            let fam = api::Family { afi, safi };
+            let path = api::Path { nlri: Some(nlri), family: Some(fam.clone()), pattrs, ..Default::default() };
+            let add = svc
+                .add_path(tonic::Request::new(api::AddPathRequest {
+                    table_type: api::TableType::Global as i32,
+                    path: Some(path),
+                    ..Default::default()
+                }))
+                .await;
+            if add.is_err() {
+                return "(grpc add-refused)".to_string();
+            }
+            let resp = svc
+                .list_path(tonic::Request::new(api::ListPathRequest {
+                    table_type: api::TableType::Global as i32,
+                    family: Some(fam),
+                    ..Default::default()
+                }))
+                .await;
+            let mut stream = match resp {
+                Ok(r) => r.into_inner(),
+                Err(_) => return "(grpc list-refused)".to_string(),
+            };
+            use futures::StreamExt;
+            let mut paths = Vec::new();
+            while let Some(item) = stream.next().await {
+                if let Ok(r) = item
+                    && let Some(d) = r.destination
+                {
+                    paths.extend(d.paths);
+                }
+            }
+            if paths.len() != 1 {
+                return format!("(grpc listed-paths {})", paths.len());
+            }
+            let p = &paths[0];
+            let n = match &p.nlri {
+                Some(n) => api_nlri_t(n),
+                None => Term::atom("n-missing"),
+            };
+            Term::tag(
+                "grpc",
+                vec![Term::tag("listed", vec![n, Term::list(p.pattrs.iter().map(api_attr_t).collect())])],
+            )
+            .to_string()
+        })
+    });
+    Some(match out {
+        Out::Ok(s) => s,
+        _ => "(grpc panic)".into(),
+    })
 }
 
 // ------------------------------------------------------------------ cases
@@ -934,7 +1356,7 @@ fn run_case(line: &str) -> String {
             if code > 255 || flags > 255 || !modelled_code(code as u8) || code == 14 || code == 15 {
                 return BAD_CASE.into();
             }
-            if val.len() > 3000 || (flags & 0x10 == 0 && val.len() > 255) {
+            if val.len() > 65508 || (flags & 0x10 == 0 && val.len() > 255) {
                 return BAD_CASE.into();
             }
             match decode_attr(code as u8, flags as u8, &val) {
@@ -1010,9 +1432,34 @@ fn run_case(line: &str) -> String {
                 Out::Panic => "(from panic)".into(),
             }
         }
+        "grpc" => {
+            if l.len() != 3 {
+                return BAD_CASE.into();
+            }
+            let Some(attrs) = l[2].as_list() else { return BAD_CASE.into() };
+            // a raw PREFIX_SID would be stored and listed through the (unmodelled) prefix-SID codec
+            if attrs.iter().any(|a| {
+                a.tagged("unknown").and_then(|x| x.get(1)).and_then(as_u128).is_some_and(|t| t % 256 == 40)
+            }) {
+                return BAD_CASE.into();
+            }
+            run_grpc(&l[1], attrs).unwrap_or_else(|| BAD_CASE.into())
+        }
         "x" => {
-            // (x attr-<name> CODE FLAGS xBYTES) | (x nlri-<name> AFI SAFI xBYTES)
+            // (x attr-<name> CODE FLAGS xBYTES) | (x nlri-<name> AFI SAFI xBYTES) | (x api-<kind> (N..) (ASTR..) xBYTES)
             let Some(kind) = l.get(1).and_then(|k| k.as_atom()) else { return BAD_CASE.into() };
+            if kind.starts_with("api-") {
+                if l.len() != 5 {
+                    return BAD_CASE.into();
+                }
+                let (Some(ns), Some(ss), Some(bytes)) = (l[2].as_list(), l[3].as_list(), l[4].as_bytes()) else {
+                    return BAD_CASE.into();
+                };
+                let nums: Option<Vec<u64>> = ns.iter().map(|t| as_u32(t).map(|v| v as u64)).collect();
+                let strs: Option<Vec<String>> = ss.iter().map(astr_to_string).collect();
+                let (Some(nums), Some(strs)) = (nums, strs) else { return BAD_CASE.into() };
+                return explore_api(kind, &nums, &strs, &bytes);
+            }
             if l.len() != 5 {
                 return BAD_CASE.into();
             }
